@@ -705,6 +705,10 @@ func (server *SugarDB) randomKey(ctx context.Context) string {
 }
 
 func (server *SugarDB) getObjectFreq(ctx context.Context, key string) (int, error) {
+	// The per-database caches are created, updated and emptied under the store lock.
+	server.storeLock.RLock()
+	defer server.storeLock.RUnlock()
+
 	database := ctx.Value("Database").(int)
 
 	var freq int
@@ -725,6 +729,10 @@ func (server *SugarDB) getObjectFreq(ctx context.Context, key string) (int, erro
 }
 
 func (server *SugarDB) getObjectIdleTime(ctx context.Context, key string) (float64, error) {
+	// The per-database caches are created, updated and emptied under the store lock.
+	server.storeLock.RLock()
+	defer server.storeLock.RUnlock()
+
 	database := ctx.Value("Database").(int)
 
 	var accessTime int64
